@@ -94,7 +94,9 @@ Record member := MkMem {
   m_op : opd float;
   m_right : fcols;
   m_left : option (nat * fmat);
-  m_out : fcols                       (* observed result columns of this member *)
+  m_out : fcols;                      (* observed result columns of this member *)
+  m_spec : option (opd float)         (* cells of a known finding: the operator as SPECIFIED (the transcribed one is m_op);
+                                         the case is accepted when either agrees, so a repair never raises an alarm *)
 }.
 
 Record case := MkCase {
@@ -160,11 +162,26 @@ Definition fold_ok (c : case) : bool :=
   | _ => false
   end.
 
-Definition case_codes (c : case) : seq nat :=
+Definition with_spec (c : case) : option case :=
+  if all (fun m => isSome (m_spec m)) (c_members c) && (0 < size (c_members c))%N then
+    Some (MkCase (c_set c) (c_obs c) (c_rbs c) (c_bb c) (c_cols c)
+                 (map (fun m => MkMem (if m_spec m is Some o then o else m_op m) (m_right m) (m_left m) (m_out m) None) (c_members c))
+                 (c_tol c) (c_cgtol c) (c_fold c) (o_events c) (o_cgtols c) (o_warn c))
+  else None.
+
+Definition case_codes0 (c : case) : seq nat :=
   (if path_ok c then [::] else [:: 1%N])
   ++ undup (filter (fun x => x != 0%N) (map (member_code c) (c_members c)))
   ++ (if resid_call_ok c then [::] else [:: 4%N])
   ++ (if fold_ok c then [::] else [:: 6%N]).
+
+Definition case_codes (c : case) : seq nat :=
+  let k := case_codes0 c in
+  if nilp k then k else
+  match with_spec c with
+  | Some c' => if nilp (case_codes0 c') then [::] else k
+  | None => k
+  end.
 
 (* result: i * 10 + code for every failed check of case i *)
 Fixpoint bad_cases (cs : seq case) (i : nat) : seq nat :=
